@@ -183,3 +183,8 @@ def obligations(tier, seed):
                 return core + suf, None, None, len(core)
             obs.append(make_pair("suffix", pname, sname, tr2))
     return obs
+
+
+def gates(tier, seed):
+    from .gates import assembler_gates
+    return assembler_gates(tier, seed)
